@@ -727,6 +727,11 @@ func probeNewToken(w *casefile.Writer) {
 	wk := &worker{}
 	res := wk.run(h)
 	wk.stop()
+	emitProbe(w, res)
+}
+
+func emitProbe(w *casefile.Writer, res histResult) {
+	h := res.h
 	w.Count("probe:repeat-new-token")
 	if msg := res.crash + res.fatal + res.err; msg != "" {
 		if res.crash != "" {
@@ -801,7 +806,11 @@ func main() {
 			os.Exit(2)
 		}
 		wk := &worker{}
-		emitHistory(w, wk.run(h))
+		if h.Mode == "probe-new-token" {
+			emitProbe(w, wk.run(h))
+		} else {
+			emitHistory(w, wk.run(h))
+		}
 		wk.stop()
 		w.Close()
 		return
